@@ -367,6 +367,75 @@ namespace inner { double twice(double x) { return 2 * x; } }
 }
 
 
+# a chain of Fortran modules three deep: a namespace inside a namespace, each using a class of the scope around it
+# (the modules must be listed by --ffiles in an order in which they compile)
+NEST = {
+    "yaml": """
+library: sub
+cxx_header: sub.hpp
+options: {debug: true, wrap_python: false, wrap_lua: false}
+declarations:
+- decl: class Base
+  declarations:
+  - decl: Base()
+  - decl: ~Base()
+  - decl: int id() const
+- decl: namespace mid
+  declarations:
+  - decl: class Mid
+    declarations:
+    - decl: Mid()
+    - decl: ~Mid()
+    - decl: int twice(int a) const
+  - decl: Base * frombase() +owner(caller)
+  - decl: int viabase(const Base & b)
+  - decl: namespace deep
+    declarations:
+    - decl: class Leaf
+      declarations:
+      - decl: Leaf()
+      - decl: ~Leaf()
+    - decl: mid::Mid * frommid() +owner(caller)
+    - decl: int viamid(const mid::Mid & m)
+    - decl: namespace deeper
+      declarations:
+      - decl: int vialeaf(const mid::deep::Leaf & l, const Base & b)
+""",
+    "hpp": """
+#ifndef SUB_HPP
+#define SUB_HPP
+class Base { public: Base(); ~Base(); int id() const; };
+namespace mid {
+class Mid { public: Mid(); ~Mid(); int twice(int a) const; };
+Base *frombase();
+int viabase(const Base &b);
+namespace deep {
+class Leaf { public: Leaf(); ~Leaf(); };
+mid::Mid *frommid();
+int viamid(const mid::Mid &m);
+namespace deeper { int vialeaf(const mid::deep::Leaf &l, const Base &b); }
+}
+}
+#endif
+""",
+    "cpp": """
+#include "sub.hpp"
+Base::Base() {} Base::~Base() {} int Base::id() const { return 1; }
+namespace mid {
+Mid::Mid() {} Mid::~Mid() {} int Mid::twice(int a) const { return 2 * a; }
+Base *frombase() { return new Base; }
+int viabase(const Base &b) { return b.id(); }
+namespace deep {
+Leaf::Leaf() {} Leaf::~Leaf() {}
+mid::Mid *frommid() { return new mid::Mid; }
+int viamid(const mid::Mid &m) { return m.twice(2); }
+namespace deeper { int vialeaf(const mid::deep::Leaf &l, const Base &b) { (void)l; return b.id(); } }
+}
+}
+""",
+}
+
+
 # ---------------------------------------------------------------------------
 # part 3: descriptions from LibGen
 def classify(lib, stage, fn, txt):
@@ -447,6 +516,10 @@ def explore(c, tier):
         cl["custom"] = CPPIF
         cl["defines"] = defs
         uniq.append(cl)
+    nl = libgen.wide_library()
+    nl["funcs"] = []
+    nl["custom"] = NEST
+    uniq.append(nl)
     # one library per row with nothing else in it (a forgotten helper / include request is not masked)
     uniq += libgen.solo_libraries()
     if tier == "thorough":
